@@ -222,13 +222,35 @@ class MetaOb:
         self.failed_sub = None if d["status"] == "discharged" else {"goal": self.goal, "backend": self.backend}
 
 
+class TargetTimeout(Exception):
+    pass
+
+
 def _worker(args):
     """generate + discharge one target in a forked child (targets are closures: addressed by index into the inherited list)"""
     idx, prop, budget, all_solvers, jobs = args
     os.environ["VERIF_JOBS"] = str(jobs)
     t = _WORK["targets"][idx]
-    frs = generate([t], prop)
-    fr = frs[0]
+    # watchdog: a target whose generation does not end (path explosion after a change to the code) is reported as undecided with
+    # the reason, it must not hang the check.  Solver calls carry their own budgets.
+    import signal
+
+    limit = int(os.environ.get("VERIF_TARGET_TIMEOUT", "1500" if budget is solve.QUICK else "7200"))
+
+    def _alarm(signum, frame):
+        raise TargetTimeout(f"generation of the obligations did not end within {limit} s")
+    old_h = signal.signal(signal.SIGALRM, _alarm)
+    signal.alarm(limit)
+    try:
+        frs = generate([t], prop)
+        fr = frs[0]
+    except TargetTimeout as e:
+        relpath, q = t
+        fr = FunctionResult(relpath, q if isinstance(q, str) else getattr(q, "__name__", "gen"))
+        fr.error = f"TargetTimeout: {e}"
+    finally:
+        signal.alarm(0)
+        signal.signal(signal.SIGALRM, old_h)
     if fr.obligations:
         solve.discharge_all(fr.obligations, budget, all_solvers=all_solvers)
     vac = {}
